@@ -123,6 +123,24 @@ def attemptedJ (att : List (Dotted × Bool)) : Json :=
   let keys := (att.map (·.1)).eraseDups
   Json.arr (keys.filterMap fun k => (att.lookup k).map fun b => Json.arr #[dotJ k, Json.bool b]).toArray
 
+def setNs : List NS → Nat → NS → List NS
+  | [], _, _ => []
+  | _ :: rest, 0, ns => ns :: rest
+  | x :: rest, i + 1, ns => x :: setNs rest i ns
+
+/-- run one call on the view `idxs` of the pool of namespaces (the stack the caller passed), write the view back -/
+def stepView (db : DB) (c : Call) (idxs : List Nat) (st : State PyW) : Outcome × State PyW × List NS :=
+  let pool := st.nss
+  let view := idxs.map (getNs pool)
+  let (o, st') := step pyUniv db c { st with nss := view }
+  let pool' := (idxs.zip st'.nss).foldl (fun p (i, ns) => setNs p i ns) pool
+  (o, { st' with nss := pool' }, st'.nss)
+
+def parseStack (j : Json) (n : Nat) : List Nat :=
+  match jarr j "stack" with
+  | .ok a => a.toList.filterMap fun x => x.getNat?.toOption
+  | .error _ => List.range n
+
 def parseCall (j : Json) : Except String (Call × List Dotted) := do
   let kind ← jstr j "kind"
   match kind with
@@ -167,9 +185,13 @@ def handle (j : Json) : Except String Json := do
     let st0 : State PyW := { nss := nss, failed := [], attempted := [], w := w1, log := [] }
     let ns0 := nsJ w1 nss
     let reg0 := regJ w1
-    let (outs, _) := calls.foldl (init := (([] : List Json), st0)) fun (outs, st) (c, sni) =>
+    let callsJ := (← jarr j "calls").toList
+    let (outs, _) := (calls.zip callsJ).foldl (init := (([] : List Json), st0)) fun (outs, st) ((c, sni), cj) =>
       let st := { st with w := { st.w with events := [] } }
-      let (o, st') := step pyUniv db c st
+      let isView := match c with | .code _ => true | .symbol _ => true | _ => false
+      let (o, st', view) :=
+        if isView then stepView db c (parseStack cj st.nss.length) st
+        else let r := step pyUniv db c st; (r.1, r.2, r.2.nss)
       let out := Json.mkObj [
         ("result", outcomeJ o),
         ("after", nsJ st'.w st'.nss),
@@ -177,7 +199,7 @@ def handle (j : Json) : Except String Json := do
         ("failed", Json.arr (st'.failed.map fun i => Json.arr #[dotJ i.fullname, dotJ i.importAs]).toArray),
         ("attempted", attemptedJ st'.attempted),
         ("reg", regJ st'.w),
-        ("sni_after", Json.arr (sni.map fun d => Json.bool (symbolNeedsImport pyUniv st'.w st'.nss d)).toArray)]
+        ("sni_after", Json.arr (sni.map fun d => Json.bool (symbolNeedsImport pyUniv st'.w view d)).toArray)]
       (outs ++ [out], st')
     pure (Json.mkObj [("ns0", ns0), ("reg0", reg0), ("calls", Json.arr outs.toArray), ("db_keyed", Json.bool (dbKeyed db))])
   | _ => throw s!"unknown op {op}"
